@@ -71,7 +71,7 @@ def run_directed(chk, n):
         cons = lambda: comp("q", only=r.random() < 0.3)
         n_cons = r.randint(1, 3)
         many = [cons() for _ in range(n_cons)]
-        schema = r.randrange(7)
+        schema = r.randrange(8)
         wrapper = {"name": "p", "data": [], "template": []}
         if schema == 0:      # provider around a slot; consumers arrive through the fill
             wrapper["template"] = [prov(key, lit("IN"), [T("("), slot("s1", [T("d")]), T(")")])]
@@ -88,6 +88,9 @@ def run_directed(chk, n):
         elif schema == 4:    # provider inside a component template, consumers as descendants two levels down
             wrapper["template"] = [prov(key, lit("T"), [comp("m")])]
             page = [comp("p"), T("|")] + many
+        elif schema == 6:    # provider -> loop -> component that provides the same key again around the consumers
+            wrapper["template"] = [T("("), prov(key, lit("IN"), many + [comp("m")]), T(")")]
+            page = [prov(key, lit("OUT"), [{"t": "for", "x": "v", "e": var("xs"), "body": [comp("p", only=r.random() < 0.5)]}] + many)]
         elif schema == 5:    # the same key around the fill site AND around the slot: the slot's provider is nearer
             wrapper["template"] = [prov(key, lit("IN"), [T("("), slot("s1", [T("d")]), T(")")])]
             page = [prov(key, lit("OUT"), [comp("p", [fill("s1", many)]), T("|")] + many)]
